@@ -402,6 +402,39 @@ def run(case):
                         c.nontrivial.append(sub2)
                         c.same(sub2 + "/Displacements", "saved displacements (layout of the field values must not matter)", m2.point_data["Displacements"][:, : mesh.dim], u)
                         c.same(sub2 + "/Reaction Force", "saved reaction forces: row p = components of point p of the force vector", m2.point_data["Reaction Force"][:, : mesh.dim], forces.reshape(-1, mesh.dim))
+        # fields whose number of components differs from the mesh dimension, alone and followed by a scalar field: the leading
+        # entries of the force vector belong to the FIRST FIELD (field size, not mesh size)
+        for fam, fdim in (("quad", 3), ("quad", 1), ("hexahedron", 1), ("hexahedron", 2)):
+            mesh = zoo.make(fam, "renum", seed)
+            region = zoo.region(fam, mesh)
+            for extra in (False, True):
+                u = 0.05 * zoo.offarr(seed, 1310 + fdim, (mesh.npoints, fdim))
+                fields = [fem.Field(region, dim=fdim, values=u.copy())] + ([fem.Field(region, dim=1, values=0.3 * zoo.offarr(seed, 1320, (mesh.npoints, 1)))] if extra else [])
+                fcx = fem.FieldContainer(fields)
+                forces = zoo.offarr(seed, 1330 + fdim, (int(sum(fcx.fieldsizes)),))
+                fn = f"save_dim_{fam}_{fdim}.vtu"
+                sub = f"{fam}/field-dim={fdim}/extra-field={extra}"
+                c.trans += 1
+                try:
+                    fem.tools.save(region, fcx, forces=forces, filename=fn)
+                    m = meshio.read(fn)
+                except Exception as ex:  # noqa
+                    c.bad(sub + "/exception", "save / read raised for a field whose component count differs from the mesh dimension", repr(ex)[:160], "a readable file")
+                    continue
+                finally:
+                    if os.path.exists(fn):
+                        os.remove(fn)
+                c.states += 1
+                c.nontrivial.append(sub)
+                got_u = np.asarray(m.point_data["Displacements"]).reshape(mesh.npoints, -1)
+                got_f = np.asarray(m.point_data["Reaction Force"]).reshape(mesh.npoints, -1)
+                if got_f.shape[1] < fdim or got_u.shape[1] < fdim:
+                    c.bad(sub + "/shape", "components per point of the saved arrays", [got_u.shape[1], got_f.shape[1]], fdim)
+                    continue
+                c.same(sub + "/Displacements", "saved displacements", got_u[:, :fdim], u)
+                c.same(sub + "/Reaction Force", "saved reaction forces = leading field-size entries of the force vector, one row per point", got_f[:, :fdim], forces[: mesh.npoints * fdim].reshape(-1, fdim))
+                if got_f.shape[1] > fdim and np.abs(got_f[:, fdim:]).max() > 0:
+                    c.bad(sub + "/padding", "padding columns of the saved reaction forces", float(np.abs(got_f[:, fdim:]).max()), 0)
         # call histories: every sequence (depth 2, quick; 3, thorough) over {forces, forces+gradient, own point data, nothing} x
         # two meshes of different size: every file must hold exactly the arrays THAT call was given
         setups = {}
